@@ -26,13 +26,26 @@ Definition eff (k : nat) (x : thread) : Z :=
       if Nat.eqb k' k
       then match t_pc x with PStored _ _ | PUnlink _ true => -1 | PDone rp => if rp =? 1 then -1 else 0 | _ => 0 end
       else 0
+  | Move a b =>
+      (* LPOPRPUSH a b: -1 on the source once the pop is stored, +1 on the destination once the push is stored *)
+      (if Nat.eqb a k
+       then match t_pc x with
+            | PStored _ false | PUnlink _ true | PHit _ true | PWait _ true | PMiss true | PLocked _ true | PPub _ true
+            | PLoaded _ _ true | PStored _ true => -1
+            | PDone rp => if rp =? 1 then -1 else 0
+            | _ => 0
+            end
+       else 0) +
+      (if Nat.eqb b k
+       then match t_pc x with PStored _ true => 1 | PDone rp => if rp =? 1 then 1 else 0 | _ => 0 end
+       else 0)
   | _ => 0
   end.
 
 Definition own (s : cstate) (t : nat) (x : thread) (k r : nat) : Prop :=
   t_held x = [(r, true)] /\ r_w (get_rec r s) = Some t /\ nget k (ix s) = Some r /\
   r_unl (get_rec r s) = false /\ (r < nextr s)%nat.
-Definition tok (s : cstate) (t : nat) (x : thread) : Prop :=
+Definition tokW (s : cstate) (t : nat) (x : thread) : Prop :=
   exists k, wkey (t_cmd x) = Some k /\
   match t_pc x with
   | PStart | PMiss false | PDone _ => t_held x = []
@@ -45,6 +58,35 @@ Definition tok (s : cstate) (t : nat) (x : thread) : Prop :=
   | _ => False
   end.
 
+(* LPOPRPUSH a b, a <> b.  Phase 1 (second = false) works on the source like a pop; from the moment the pop is
+   stored the thread keeps holding the source record r1 - linked as a's record, or flagged if the pop emptied the list
+   and the thread unlinked it - while it looks up, locks or creates the destination and pushes. *)
+Definition held1 (s : cstate) (t : nat) (a r1 : nat) : Prop :=
+  r_w (get_rec r1 s) = Some t /\ (r1 < nextr s)%nat /\
+  ((nget a (ix s) = Some r1 /\ r_unl (get_rec r1 s) = false) \/ r_unl (get_rec r1 s) = true).
+Definition own2 (s : cstate) (t : nat) (b r2 : nat) : Prop :=
+  r_w (get_rec r2 s) = Some t /\ nget b (ix s) = Some r2 /\ r_unl (get_rec r2 s) = false /\ (r2 < nextr s)%nat.
+Definition tokM (s : cstate) (t : nat) (x : thread) : Prop :=
+  exists a b, t_cmd x = Move a b /\ a <> b /\
+  match t_pc x with
+  | PStart | PMiss false | PDone _ => t_held x = []
+  | PHit r false | PWait r false =>
+      t_held x = [] /\ (r < nextr s)%nat /\ (r_unl (get_rec r s) = false -> nget a (ix s) = Some r)
+  | PLocked r false | PStored r false => own s t x a r
+  | PLoaded r tmp false => own s t x a r /\ tmp = r_val (get_rec r s)
+  | PUnlink r popped => own s t x a r /\ (r_val (get_rec r s) = 0 /\ popped = true)
+  | PPub _ false => False
+  | PHit r2 true | PWait r2 true =>
+      exists r1, t_held x = [(r1, true)] /\ held1 s t a r1 /\ (r2 < nextr s)%nat /\ r2 <> r1 /\
+                 (r_unl (get_rec r2 s) = false -> nget b (ix s) = Some r2)
+  | PMiss true => exists r1, t_held x = [(r1, true)] /\ held1 s t a r1
+  | PLocked r2 true | PPub r2 true | PStored r2 true =>
+      exists r1, t_held x = [(r2, true); (r1, true)] /\ held1 s t a r1 /\ r2 <> r1 /\ own2 s t b r2
+  | PLoaded r2 tmp true =>
+      exists r1, t_held x = [(r2, true); (r1, true)] /\ held1 s t a r1 /\ r2 <> r1 /\ own2 s t b r2 /\ tmp = r_val (get_rec r2 s)
+  end.
+Definition tok (s : cstate) (t : nat) (x : thread) : Prop := tokW s t x \/ tokM s t x.
+
 Section General.
   Variable v0 : nat -> Z.
 
@@ -54,7 +96,8 @@ Section General.
     gN : forall r, 0 <= r_val (get_rec r s);
     gI : forall k k' r, nget k (ix s) = Some r -> nget k' (ix s) = Some r -> k = k';
     gR : forall k r, nget k (ix s) = Some r -> (r < nextr s)%nat;
-    gF : forall r, (nextr s <= r)%nat -> nget r (recs s) = None }.
+    gF : forall r, (nextr s <= r)%nat -> nget r (recs s) = None;
+    gJ : forall k r, nget k (ix s) = Some r -> r_unl (get_rec r s) = false }.
 
   Lemma own_frame s s' t x k r :
     own s t x k r -> (nextr s <= nextr s')%nat ->
@@ -64,13 +107,13 @@ Section General.
   Proof.
     intros [Hh [Hw [Hi [Hu Hr]]]] Hn Hrec Hix. unfold own. rewrite (Hrec r Hw). split; [exact Hh|]. split; [exact Hw|]. split; [now apply Hix|]. split; [exact Hu|lia].
   Qed.
-  Lemma tok_frame s s' t x :
-    tok s t x -> (nextr s <= nextr s')%nat ->
+  Lemma tokW_frame s s' t x :
+    tokW s t x -> (nextr s <= nextr s')%nat ->
     (forall r0, r_w (get_rec r0 s) = Some t -> get_rec r0 s' = get_rec r0 s) ->
     (forall k0 r0, nget k0 (ix s) = Some r0 -> r_w (get_rec r0 s) = Some t -> nget k0 (ix s') = Some r0) ->
     (forall r0, r_unl (get_rec r0 s') = false -> r_unl (get_rec r0 s) = false) ->
     (forall k0 r0, nget k0 (ix s) = Some r0 -> nget k0 (ix s') = Some r0 \/ r_unl (get_rec r0 s') = true) ->
-    tok s' t x.
+    tokW s' t x.
   Proof.
     intros [k [Hk Hp]] Hn Hrec Hix HM1 HM2. exists k. split; [exact Hk|].
     destruct (t_pc x) as [|r [|]|r [|]|r [|]|[|]|r [|]|r tmp [|]|r [|]|r p|rp]; try exact Hp; try contradiction.
@@ -83,6 +126,63 @@ Section General.
     - destruct Hp as [Ho Ht]. pose proof Ho as [_ [Hw _]]. split; [now apply (own_frame s)|now rewrite (Hrec r Hw)].
     - destruct Hp as [Ho Ht]. pose proof Ho as [_ [Hw _]]. split; [now apply (own_frame s)|now rewrite (Hrec r Hw)].
     - destruct Hp as [Ho Ht]. pose proof Ho as [_ [Hw _]]. split; [now apply (own_frame s)|now rewrite (Hrec r Hw)].
+  Qed.
+
+  Lemma held1_frame s s' t a r1 :
+    held1 s t a r1 -> (nextr s <= nextr s')%nat ->
+    (forall r0, r_w (get_rec r0 s) = Some t -> get_rec r0 s' = get_rec r0 s) ->
+    (forall k0 r0, nget k0 (ix s) = Some r0 -> r_w (get_rec r0 s) = Some t -> nget k0 (ix s') = Some r0) ->
+    held1 s' t a r1.
+  Proof.
+    intros [Hw [Hr Hl]] Hn Hrec Hix. unfold held1. rewrite (Hrec r1 Hw). split; [exact Hw|]. split; [lia|].
+    destruct Hl as [[Hi Hu]|Hu]; [left; split; [now apply Hix|exact Hu]|now right].
+  Qed.
+  Lemma own2_frame s s' t b r2 :
+    own2 s t b r2 -> (nextr s <= nextr s')%nat ->
+    (forall r0, r_w (get_rec r0 s) = Some t -> get_rec r0 s' = get_rec r0 s) ->
+    (forall k0 r0, nget k0 (ix s) = Some r0 -> r_w (get_rec r0 s) = Some t -> nget k0 (ix s') = Some r0) ->
+    own2 s' t b r2.
+  Proof.
+    intros [Hw [Hi [Hu Hr]]] Hn Hrec Hix. unfold own2. rewrite (Hrec r2 Hw). split; [exact Hw|]. split; [now apply Hix|]. split; [exact Hu|lia].
+  Qed.
+  Lemma tokM_frame s s' t x :
+    tokM s t x -> (nextr s <= nextr s')%nat ->
+    (forall r0, r_w (get_rec r0 s) = Some t -> get_rec r0 s' = get_rec r0 s) ->
+    (forall k0 r0, nget k0 (ix s) = Some r0 -> r_w (get_rec r0 s) = Some t -> nget k0 (ix s') = Some r0) ->
+    (forall r0, r_unl (get_rec r0 s') = false -> r_unl (get_rec r0 s) = false) ->
+    (forall k0 r0, nget k0 (ix s) = Some r0 -> nget k0 (ix s') = Some r0 \/ r_unl (get_rec r0 s') = true) ->
+    tokM s' t x.
+  Proof.
+    intros [a [b [Hc [Hab Hp]]]] Hn Hrec Hix HM1 HM2. exists a, b. split; [exact Hc|]. split; [exact Hab|].
+    destruct (t_pc x) as [|r [|]|r [|]|r [|]|[|]|r [|]|r tmp [|]|r [|]|r p|rp]; try exact Hp; try contradiction.
+    - (* PHit true *) destruct Hp as [r1 [Hh [H1 [Hr [Hne Hu]]]]]. exists r1. split; [exact Hh|]. split; [now apply (held1_frame s)|]. split; [lia|]. split; [exact Hne|].
+      intro H. destruct (HM2 b r (Hu (HM1 r H))) as [H2|H2]; [exact H2|congruence].
+    - (* PHit false *) destruct Hp as [Hh [Hr Hu]]. split; [exact Hh|]. split; [lia|]. intro H.
+      destruct (HM2 a r (Hu (HM1 r H))) as [H2|H2]; [exact H2|congruence].
+    - (* PWait true *) destruct Hp as [r1 [Hh [H1 [Hr [Hne Hu]]]]]. exists r1. split; [exact Hh|]. split; [now apply (held1_frame s)|]. split; [lia|]. split; [exact Hne|].
+      intro H. destruct (HM2 b r (Hu (HM1 r H))) as [H2|H2]; [exact H2|congruence].
+    - (* PWait false *) destruct Hp as [Hh [Hr Hu]]. split; [exact Hh|]. split; [lia|]. intro H.
+      destruct (HM2 a r (Hu (HM1 r H))) as [H2|H2]; [exact H2|congruence].
+    - (* PLocked true *) destruct Hp as [r1 [Hh [H1 [Hne H2]]]]. exists r1. split; [exact Hh|]. split; [now apply (held1_frame s)|]. split; [exact Hne|now apply (own2_frame s)].
+    - (* PLocked false *) now apply (own_frame s).
+    - (* PMiss true *) destruct Hp as [r1 [Hh H1]]. exists r1. split; [exact Hh|now apply (held1_frame s)].
+    - (* PPub true *) destruct Hp as [r1 [Hh [H1 [Hne H2]]]]. exists r1. split; [exact Hh|]. split; [now apply (held1_frame s)|]. split; [exact Hne|now apply (own2_frame s)].
+    - (* PLoaded true *) destruct Hp as [r1 [Hh [H1 [Hne [H2 Ht]]]]]. exists r1. split; [exact Hh|]. split; [now apply (held1_frame s)|]. split; [exact Hne|].
+      pose proof H2 as [Hw2 _]. split; [now apply (own2_frame s)|now rewrite (Hrec r Hw2)].
+    - (* PLoaded false *) destruct Hp as [Ho Ht]. pose proof Ho as [_ [Hw _]]. split; [now apply (own_frame s)|now rewrite (Hrec r Hw)].
+    - (* PStored true *) destruct Hp as [r1 [Hh [H1 [Hne H2]]]]. exists r1. split; [exact Hh|]. split; [now apply (held1_frame s)|]. split; [exact Hne|now apply (own2_frame s)].
+    - (* PStored false *) now apply (own_frame s).
+    - (* PUnlink *) destruct Hp as [Ho Ht]. pose proof Ho as [_ [Hw _]]. split; [now apply (own_frame s)|now rewrite (Hrec r Hw)].
+  Qed.
+  Lemma tok_frame s s' t x :
+    tok s t x -> (nextr s <= nextr s')%nat ->
+    (forall r0, r_w (get_rec r0 s) = Some t -> get_rec r0 s' = get_rec r0 s) ->
+    (forall k0 r0, nget k0 (ix s) = Some r0 -> r_w (get_rec r0 s) = Some t -> nget k0 (ix s') = Some r0) ->
+    (forall r0, r_unl (get_rec r0 s') = false -> r_unl (get_rec r0 s) = false) ->
+    (forall k0 r0, nget k0 (ix s) = Some r0 -> nget k0 (ix s') = Some r0 \/ r_unl (get_rec r0 s') = true) ->
+    tok s' t x.
+  Proof.
+    intros [H|H] Hn Hrec Hix HM1 HM2; [left; now apply (tokW_frame s)|right; now apply (tokM_frame s)].
   Qed.
 
   (* the threads other than the stepping one *)
@@ -127,6 +227,7 @@ Section General.
     - apply (gI s G).
     - apply (gR s G).
     - apply (gF s G).
+    - apply (gJ s G).
   Qed.
 
   (* a step that also rewrites one record, which no other thread owns *)
@@ -150,14 +251,21 @@ Section General.
     - apply (gI s G).
     - apply (gR s G).
     - intros r0 Hr0. cbn [recs set_th set_rec nextr] in *. rewrite nget_nset_other by lia. now apply (gF s G).
+    - intros k0 r0 H. cbn [ix set_th set_rec] in H. rewrite get_rec_set_th. destruct (Nat.eq_dec r0 r) as [->|Hd].
+      + rewrite get_set_rec_same, Hunl. exact (gJ s G k0 r H).
+      + rewrite get_set_rec_other by exact Hd. exact (gJ s G k0 r0 H).
   Qed.
 
   Definition quiet_pc (p : pc) : bool :=
-    match p with PStart | PHit _ _ | PWait _ _ | PLocked _ _ | PMiss _ | PPub _ _ | PLoaded _ _ _ | PUnlink _ false => true | _ => false end.
+    match p with
+    | PStart | PHit _ false | PWait _ false | PLocked _ false | PMiss false | PPub _ false | PLoaded _ _ false | PUnlink _ false => true
+    | _ => false
+    end.
   Lemma eff_quiet k x : quiet_pc (t_pc x) = true -> eff k x = 0.
   Proof.
-    unfold eff. destruct (t_cmd x); try reflexivity; destruct (Nat.eqb _ _); try reflexivity;
-      destruct (t_pc x) as [| | | | | | | |? [|]|]; try reflexivity; discriminate.
+    unfold eff. destruct (t_cmd x); try reflexivity;
+      destruct (t_pc x) as [|? [|]|? [|]|? [|]|[|]|? [|]|? ? [|]|? [|]|? [|]|]; cbn [quiet_pc]; intro H; try discriminate;
+      repeat (destruct (Nat.eqb _ _)); reflexivity.
   Qed.
   Lemma wkey_key c k : wkey c = Some k -> key_of c false = k /\ is_reader c = false.
   Proof. destruct c; cbn; intro H; inversion H; split; reflexivity. Qed.
@@ -169,10 +277,10 @@ Section General.
     intros G Hx Hk Hh Hq. unfold lookup_next. destruct (wkey_key _ _ Hk) as [Hkey _]. rewrite Hkey.
     destruct (nget k (ix s)) as [r|] eqn:E.
     - apply (G_local s t x _ G Hx).
-      + exists k. cbn [t_cmd t_pc t_held with_pc set_th]. split; [exact Hk|]. split; [exact Hh|]. split; [exact (gR s G k r E)|]. intros _. exact E.
+      + left. exists k. cbn [t_cmd t_pc t_held with_pc set_th]. split; [exact Hk|]. split; [exact Hh|]. split; [exact (gR s G k r E)|]. intros _. exact E.
       + intro k0. rewrite (eff_quiet k0 x Hq). apply eff_quiet. reflexivity.
     - apply (G_local s t x _ G Hx).
-      + exists k. cbn [t_cmd t_pc t_held with_pc set_th]. split; [exact Hk|exact Hh].
+      + left. exists k. cbn [t_cmd t_pc t_held with_pc set_th]. split; [exact Hk|exact Hh].
       + intro k0. rewrite (eff_quiet k0 x Hq). apply eff_quiet. reflexivity.
   Qed.
 
@@ -192,7 +300,7 @@ Section General.
       + apply lock_free_none in Hf.
         apply (G_rec s t x _ r _ G Hx Hr).
         * intros u _. congruence.
-        * exists k. cbn [t_cmd t_pc t_held set_th]. split; [exact Hk|]. unfold own. cbn [t_held].
+        * left. exists k. cbn [t_cmd t_pc t_held set_th]. split; [exact Hk|]. unfold own. cbn [t_held].
           rewrite get_rec_set_th, get_set_rec_same. cbn [acquire r_w r_unl ix set_th set_rec nextr].
           split; [reflexivity|]. split; [reflexivity|]. split; [now apply Hu|]. split; [exact Hun|exact Hr].
         * intro k0. rewrite (eff_quiet k0 x Hq), (eff_quiet k0); [|reflexivity].
@@ -201,7 +309,7 @@ Section General.
         * cbn. apply (gN s G).
         * reflexivity.
     - apply (G_local s t x _ G Hx).
-      + exists k. cbn [t_cmd t_pc t_held with_pc set_th]. split; [exact Hk|]. split; [exact Hh|]. split; [exact Hr|exact Hu].
+      + left. exists k. cbn [t_cmd t_pc t_held with_pc set_th]. split; [exact Hk|]. split; [exact Hh|]. split; [exact Hr|exact Hu].
       + intro k0. rewrite (eff_quiet k0 x Hq). apply eff_quiet. reflexivity.
   Qed.
 
@@ -226,7 +334,7 @@ Section General.
     intros G Hx Hk [Hh [Hw [Hi [Hu Hr]]]] Heff. rewrite (commit1 t x rp r s Hh).
     apply (G_rec s t x _ r _ G Hx Hr).
     - intros u Hne. rewrite Hw. congruence.
-    - exists k. split; [exact Hk|reflexivity].
+    - left. exists k. split; [exact Hk|reflexivity].
     - intro k0. rewrite Heff, cur0_same_val; [lia|reflexivity].
     - cbn. apply (gN s G).
     - reflexivity.
@@ -245,7 +353,7 @@ Section General.
     intros G Hx Hk [Hh [Hw [Hi [Hu Hr]]]] Hq Hv Hpush -> Hek Heo.
     apply (G_rec s t x _ r _ G Hx Hr).
     - intros u Hne. rewrite Hw. congruence.
-    - exists k. cbn [t_cmd t_pc t_held with_pc set_th]. split; [exact Hk|]. split.
+    - left. exists k. cbn [t_cmd t_pc t_held with_pc set_th]. split; [exact Hk|]. split.
       + unfold own. cbn [t_held]. rewrite get_rec_set_th, get_set_rec_same. cbn [with_val r_w r_unl ix set_th set_rec nextr].
         repeat split; assumption.
       + rewrite get_rec_set_th, get_set_rec_same. cbn [with_val r_val]. exact Hpush.
@@ -260,14 +368,16 @@ Section General.
   Proof. intros G H. unfold get_rec. now rewrite (gF s G r H). Qed.
 
   (* tx.go newKey on a key that is still missing: the new record is locked, then published *)
-  Lemma create_G s t x k :
-    GInv s -> nget t (ths s) = Some x -> wkey (t_cmd x) = Some k -> t_held x = [] -> quiet_pc (t_pc x) = true ->
-    nget k (ix s) = None ->
-    GInv (set_th t {| t_cmd := t_cmd x; t_pc := PPub (nextr s) false; t_held := (nextr s, true) :: t_held x |}
+  Lemma create_gen s t x x' k :
+    GInv s -> nget t (ths s) = Some x -> nget k (ix s) = None ->
+    tok (set_th t x' {| ix := nset k (nextr s) (ix s); recs := nset (nextr s) (acquire t true rcd_new) (recs s);
+                        nextr := S (nextr s); ths := ths s |}) t x' ->
+    (forall k0, eff k0 x' = eff k0 x) ->
+    GInv (set_th t x'
             {| ix := nset k (nextr s) (ix s); recs := nset (nextr s) (acquire t true rcd_new) (recs s);
                nextr := S (nextr s); ths := ths s |}).
   Proof.
-    intros G Hx Hk Hh Hq Hnone. set (rn := nextr s).
+    intros G Hx Hnone Hself Heff. set (rn := nextr s) in *.
     assert (Hfresh : get_rec rn s = rcd_new) by (apply get_rec_fresh; [exact G|unfold rn; lia]).
     assert (Hget : forall r0 i nx tx, r0 <> rn ->
               get_rec r0 (set_th t tx {| ix := i; recs := nset rn (acquire t true rcd_new) (recs s); nextr := nx; ths := ths s |}) = get_rec r0 s).
@@ -278,10 +388,8 @@ Section General.
       + intros u k0 r0 _ H _. cbn [ix set_th]. rewrite nget_nset_other; [exact H|]. intros ->. congruence.
       + intros r0. destruct (Nat.eq_dec r0 rn) as [->|Hd]; [intros _; now rewrite Hfresh|]. rewrite (Hget r0 _ _ _ Hd). auto.
       + intros k0 r0 H. left. cbn [ix set_th]. rewrite nget_nset_other; [exact H|]. intros ->. congruence.
-      + exists k. cbn [t_cmd t_pc t_held set_th]. split; [exact Hk|]. unfold own. cbn [t_held ix set_th nextr].
-        rewrite Hh. split; [reflexivity|]. unfold get_rec. cbn [recs set_th]. rewrite nget_nset_same. cbn [acquire r_w r_unl rcd_new].
-        split; [reflexivity|]. split; [apply nget_nset_same|]. split; [reflexivity|unfold rn; lia].
-    - intro k0. cbn [ths set_th]. rewrite (asum_eff_nset k0 t x _ _ Hx), (eff_quiet k0 x Hq), (eff_quiet k0); [|reflexivity].
+      + exact Hself.
+    - intro k0. cbn [ths set_th]. rewrite (asum_eff_nset k0 t x _ _ Hx), Heff.
       pose proof (gK s G k0) as HK.
       match goal with |- cur0 k0 ?S' = _ => assert (Hc0 : cur0 k0 S' = cur0 k0 s) end.
       { unfold cur0. cbn [ix set_th]. destruct (Nat.eq_dec k0 k) as [->|Hd].
@@ -300,33 +408,50 @@ Section General.
       + rewrite nget_nset_same. intro E. inversion E. unfold rn. lia.
       + rewrite nget_nset_other by exact Hd. intro E. pose proof (gR s G k0 r0 E). lia.
     - intros r0 Hr0. cbn [recs set_th nextr] in *. rewrite nget_nset_other by (unfold rn; lia). apply (gF s G). lia.
+    - intros k0 r0. cbn [ix set_th]. destruct (Nat.eq_dec k0 k) as [->|Hd].
+      + rewrite nget_nset_same. intro E. inversion E. unfold get_rec. cbn [recs set_th]. rewrite nget_nset_same. reflexivity.
+      + rewrite nget_nset_other by exact Hd. intro E. rewrite Hget; [exact (gJ s G k0 r0 E)|]. pose proof (gR s G k0 r0 E). unfold rn. lia.
   Qed.
 
-  (* tx.go delKey by the thread that owns the key's record (the list has become empty), then commit *)
-  Lemma unlink_G s t x k r rp :
-    GInv s -> nget t (ths s) = Some x -> wkey (t_cmd x) = Some k -> own s t x k r -> r_val (get_rec r s) = 0 ->
-    (forall k0, eff k0 {| t_cmd := t_cmd x; t_pc := PDone rp; t_held := [] |} = eff k0 x) ->
-    let y := get_rec r s in
-    let yflag := {| r_val := r_val y; r_w := r_w y; r_rd := r_rd y; r_in := r_in y; r_out := r_out y; r_unl := true |} in
-    GInv (set_th t {| t_cmd := t_cmd x; t_pc := PDone rp; t_held := [] |}
-            (set_rec r (release t true yflag) (set_ix (ndel k (ix s)) (set_rec r yflag s)))).
+  Lemma create_G s t x k :
+    GInv s -> nget t (ths s) = Some x -> wkey (t_cmd x) = Some k -> t_held x = [] -> quiet_pc (t_pc x) = true ->
+    nget k (ix s) = None ->
+    GInv (set_th t {| t_cmd := t_cmd x; t_pc := PPub (nextr s) false; t_held := (nextr s, true) :: t_held x |}
+            {| ix := nset k (nextr s) (ix s); recs := nset (nextr s) (acquire t true rcd_new) (recs s);
+               nextr := S (nextr s); ths := ths s |}).
   Proof.
-    intros G Hx Hk [Hh [Hw [Hi [Hu Hr]]]] Hval Heff y yflag.
-    set (S' := set_th t _ _).
-    assert (Hsame : get_rec r S' = release t true yflag).
+    intros G Hx Hk Hh Hq Hnone. apply (create_gen s t x _ k G Hx Hnone).
+    - left. exists k. cbn [t_cmd t_pc t_held set_th]. split; [exact Hk|]. unfold own. cbn [t_held ix set_th nextr].
+      rewrite Hh. split; [reflexivity|]. unfold get_rec. cbn [recs set_th]. rewrite nget_nset_same. cbn [acquire r_w r_unl rcd_new].
+      split; [reflexivity|]. split; [apply nget_nset_same|]. split; [reflexivity|lia].
+    - intro k0. rewrite (eff_quiet k0 x Hq). apply eff_quiet. reflexivity.
+  Qed.
+
+  (* tx.go delKey by the thread that owns the key's record (the list has become empty): the record is flagged and leaves
+     the index; y' is what the record holds afterwards (released or not), x' the thread *)
+  Lemma unlink_gen s t x x' k r y' :
+    GInv s -> nget t (ths s) = Some x -> r_w (get_rec r s) = Some t -> nget k (ix s) = Some r -> (r < nextr s)%nat ->
+    r_val (get_rec r s) = 0 -> r_val y' = 0 -> r_unl y' = true ->
+    tok (set_th t x' (set_rec r y' (set_ix (ndel k (ix s)) s))) t x' ->
+    (forall k0, eff k0 x' = eff k0 x) ->
+    GInv (set_th t x' (set_rec r y' (set_ix (ndel k (ix s)) s))).
+  Proof.
+    intros G Hx Hw Hi Hr Hval Hv' Hu' Hself Heff.
+    set (S' := set_th t _ _) in *.
+    assert (Hsame : get_rec r S' = y').
     { unfold S'. rewrite get_rec_set_th. unfold get_rec. cbn [recs set_rec set_ix]. now rewrite nget_nset_same. }
     assert (Hoth : forall r0, r0 <> r -> get_rec r0 S' = get_rec r0 s).
-    { intros r0 Hd. unfold S'. rewrite get_rec_set_th. unfold get_rec. cbn [recs set_rec set_ix]. now rewrite !nget_nset_other. }
+    { intros r0 Hd. unfold S'. rewrite get_rec_set_th. unfold get_rec. cbn [recs set_rec set_ix]. now rewrite nget_nset_other. }
     assert (Hix : ix S' = ndel k (ix s)) by reflexivity.
     constructor.
     - eapply (others_frame s S' t _ (gV s G)); [reflexivity|cbn; lia| | | | |].
       + intros u r0 Hne Hw0. apply Hoth. intros ->. rewrite Hw in Hw0. congruence.
       + intros u k0 r0 Hne H Hw0. rewrite Hix. rewrite nget_ndel_other; [exact H|]. intros ->. rewrite Hi in H. inversion H; subst r0. rewrite Hw in Hw0. congruence.
-      + intros r0. destruct (Nat.eq_dec r0 r) as [->|Hd]; [rewrite Hsame; cbn; discriminate|now rewrite Hoth].
+      + intros r0. destruct (Nat.eq_dec r0 r) as [->|Hd]; [rewrite Hsame, Hu'; discriminate|now rewrite Hoth].
       + intros k0 r0 H. rewrite Hix. destruct (Nat.eq_dec k0 k) as [->|Hd].
-        * right. rewrite Hi in H. inversion H; subst r0. rewrite Hsame. reflexivity.
+        * right. rewrite Hi in H. inversion H; subst r0. rewrite Hsame. exact Hu'.
         * left. now rewrite nget_ndel_other.
-      + exists k. split; [exact Hk|reflexivity].
+      + exact Hself.
     - intro k0. unfold S' at 2. cbn [ths set_th set_rec set_ix]. rewrite (asum_eff_nset k0 t x _ _ Hx), Heff.
       pose proof (gK s G k0) as HK.
       assert (Hc0 : cur0 k0 S' = cur0 k0 s).
@@ -335,14 +460,36 @@ Section General.
         - rewrite nget_ndel_other by exact Hd. destruct (nget k0 (ix s)) as [r'|] eqn:E; [|reflexivity].
           rewrite Hoth; [reflexivity|]. intros ->. apply Hd. exact (gI s G k0 k r E Hi). }
       rewrite Hc0. lia.
-    - intro r0. destruct (Nat.eq_dec r0 r) as [->|Hd]; [rewrite Hsame; cbn; apply (gN s G)|rewrite Hoth by exact Hd; apply (gN s G)].
+    - intro r0. destruct (Nat.eq_dec r0 r) as [->|Hd]; [rewrite Hsame, Hv'; lia|rewrite Hoth by exact Hd; apply (gN s G)].
     - intros k1 k2 r1. rewrite Hix. intros E1 E2.
       destruct (Nat.eq_dec k1 k) as [->|H1]; [now rewrite nget_ndel_same in E1|].
       destruct (Nat.eq_dec k2 k) as [->|H2]; [now rewrite nget_ndel_same in E2|].
       rewrite nget_ndel_other in E1, E2 by assumption. exact (gI s G k1 k2 r1 E1 E2).
     - intros k0 r0. rewrite Hix. intro E. destruct (Nat.eq_dec k0 k) as [->|Hd]; [now rewrite nget_ndel_same in E|].
       rewrite nget_ndel_other in E by exact Hd. exact (gR s G k0 r0 E).
-    - intros r0 Hr0. assert (Hr1 : (nextr s <= r0)%nat) by exact Hr0. unfold S'. cbn [recs set_th set_rec set_ix]. rewrite !nget_nset_other by lia. now apply (gF s G).
+    - intros r0 Hr0. assert (Hr1 : (nextr s <= r0)%nat) by exact Hr0. unfold S'. cbn [recs set_th set_rec set_ix]. rewrite nget_nset_other by lia. now apply (gF s G).
+    - intros k0 r0. rewrite Hix. intro E. destruct (Nat.eq_dec k0 k) as [->|Hd]; [now rewrite nget_ndel_same in E|].
+      rewrite nget_ndel_other in E by exact Hd. rewrite Hoth; [exact (gJ s G k0 r0 E)|]. intros ->. apply Hd. exact (gI s G k0 k r E Hi).
+  Qed.
+
+  Lemma nset_nset {A} k (v1 v2 : A) m : nset k v2 (nset k v1 m) = nset k v2 m.
+  Proof.
+    induction m as [|[k' v'] r IH]; cbn [nset]; [now rewrite Nat.eqb_refl|].
+    destruct (Nat.eqb k k') eqn:E; cbn [nset]; [now rewrite Nat.eqb_refl|rewrite E; now rewrite IH].
+  Qed.
+  Lemma set_rec_twice r y1 y2 i s : set_rec r y2 (set_ix i (set_rec r y1 s)) = set_rec r y2 (set_ix i s).
+  Proof. unfold set_rec, set_ix. cbn [ix recs nextr ths]. now rewrite nset_nset. Qed.
+  Lemma unlink_G s t x k r rp :
+    GInv s -> nget t (ths s) = Some x -> wkey (t_cmd x) = Some k -> own s t x k r -> r_val (get_rec r s) = 0 ->
+    (forall k0, eff k0 {| t_cmd := t_cmd x; t_pc := PDone rp; t_held := [] |} = eff k0 x) ->
+    let y := get_rec r s in
+    let yflag := {| r_val := r_val y; r_w := r_w y; r_rd := r_rd y; r_in := r_in y; r_out := r_out y; r_unl := true |} in
+    GInv (set_th t {| t_cmd := t_cmd x; t_pc := PDone rp; t_held := [] |}
+            (set_rec r (release t true yflag) (set_ix (ndel k (ix s)) (set_rec r yflag s)))).
+  Proof.
+    intros G Hx Hk [Hh [Hw [Hi [Hu Hr]]]] Hval Heff y yflag. rewrite set_rec_twice.
+    apply (unlink_gen s t x _ k r _ G Hx Hw Hi Hr Hval); [exact Hval|reflexivity| |exact Heff].
+    left. exists k. split; [exact Hk|reflexivity].
   Qed.
 
   Lemma own_set_th s t x p k r : own s t x k r -> own (set_th t (with_pc x p) s) t (with_pc x p) k r.
@@ -350,10 +497,10 @@ Section General.
 
   Ltac effq Hpc := let k0 := fresh "k0" in intro k0; rewrite (eff_quiet k0 _ ltac:(rewrite Hpc; reflexivity)); apply eff_quiet; reflexivity.
 
-  Theorem mstep_G t s s' : GInv s -> mstep t s = Some s' -> GInv s'.
+  Lemma mstep_GW t s s' x : GInv s -> nget t (ths s) = Some x -> tokW s t x -> mstep t s = Some s' -> GInv s'.
   Proof.
-    intros G Hs. unfold mstep in Hs. destruct (nget t (ths s)) as [x|] eqn:Hx; [|discriminate].
-    destruct (gV s G t x Hx) as [k [Hk Hp]]. destruct (wkey_key _ _ Hk) as [Hkey Hrd].
+    intros G Hx [k [Hk Hp]] Hs. unfold mstep in Hs. rewrite Hx in Hs.
+    destruct (wkey_key _ _ Hk) as [Hkey Hrd].
     destruct (t_pc x) as [|r [|]|r [|]|r [|]|[|]|r [|]|r tmp [|]|r [|]|r popped|rp] eqn:Hpc; try contradiction; try discriminate.
     - (* PStart *)
       inversion Hs; subst s'. apply (lookup_G s t x k G Hx Hk Hp). now rewrite Hpc.
@@ -365,7 +512,7 @@ Section General.
       assert (Hs2 : s' = set_th t (with_pc x (PLoaded r (r_val (get_rec r s)) false)) s)
         by (destruct (t_cmd x); try discriminate; now inversion Hs).
       subst s'. apply (G_local s t x _ G Hx).
-      + exists k. split; [exact Hk|]. cbn [t_pc with_pc]. split; [now apply own_set_th|reflexivity].
+      + left. exists k. split; [exact Hk|]. cbn [t_pc with_pc]. split; [now apply own_set_th|reflexivity].
       + effq Hpc.
     - (* PMiss *)
       destruct (t_cmd x) as [k1|k1|k1|k1|a b|k1] eqn:Hc; try discriminate; cbn [creates key_of] in Hs; cbn [key_of] in Hkey; subst k1.
@@ -375,15 +522,15 @@ Section General.
         * rewrite <- Hc. apply (create_G s t x k G Hx); [now rewrite Hc|exact Hp|now rewrite Hpc|exact E].
       + (* LPOP on a missing key *)
         inversion Hs; subst s'. rewrite (commit0 t x 0 s Hp). apply (G_local s t x _ G Hx).
-        * exists k. split; [cbn [t_cmd]; now rewrite Hc|reflexivity].
+        * left. exists k. split; [cbn [t_cmd]; now rewrite Hc|reflexivity].
         * intro k0. rewrite (eff_quiet k0 x) by (now rewrite Hpc). unfold eff. cbn [t_cmd t_pc]. rewrite Hc. destruct (Nat.eqb k k0); reflexivity.
       + (* RPUSHX on a missing key *)
         inversion Hs; subst s'. rewrite (commit0 t x 0 s Hp). apply (G_local s t x _ G Hx).
-        * exists k. split; [cbn [t_cmd]; now rewrite Hc|reflexivity].
+        * left. exists k. split; [cbn [t_cmd]; now rewrite Hc|reflexivity].
         * intro k0. rewrite (eff_quiet k0 x) by (now rewrite Hpc). unfold eff. cbn [t_cmd t_pc]. rewrite Hc. destruct (Nat.eqb k k0); reflexivity.
     - (* PPub: load *)
       inversion Hs; subst s'. apply (G_local s t x _ G Hx).
-      + exists k. split; [exact Hk|]. cbn [t_pc with_pc]. split; [now apply own_set_th|reflexivity].
+      + left. exists k. split; [exact Hk|]. cbn [t_pc with_pc]. split; [now apply own_set_th|reflexivity].
       + effq Hpc.
     - (* PLoaded: store *)
       destruct Hp as [Ho Ht]. pose proof (gN s G r) as Hnn.
@@ -394,7 +541,7 @@ Section General.
         * intros k0 Hd. unfold eff. cbn [t_cmd t_pc with_pc]. rewrite Hc. destruct (Nat.eqb_spec k k0); [congruence|reflexivity].
       + destruct (tmp <=? 0) eqn:Et; inversion Hs; subst s'.
         * apply (G_local s t x _ G Hx).
-          -- exists k. split; [cbn [t_cmd with_pc]; now rewrite Hc|]. cbn [t_pc with_pc]. split; [now apply own_set_th|].
+          -- left. exists k. split; [cbn [t_cmd with_pc]; now rewrite Hc|]. cbn [t_pc with_pc]. split; [now apply own_set_th|].
              cbn [t_cmd with_pc]. rewrite Hc. split; [rewrite get_rec_set_th; lia|reflexivity].
           -- effq Hpc.
         * rewrite <- Hc in Hk.
@@ -413,7 +560,7 @@ Section General.
         assert (1 <= r_val (get_rec r s)) by (apply Hpush; reflexivity). destruct (0 <? r_val (get_rec r s)) eqn:E; [reflexivity|lia].
       + destruct (r_val (get_rec r s) =? 0) eqn:Ez; inversion Hs; subst s'.
         * apply (G_local s t x _ G Hx).
-          -- exists k. split; [cbn [t_cmd with_pc]; now rewrite Hc|]. cbn [t_pc with_pc]. split; [now apply own_set_th|].
+          -- left. exists k. split; [cbn [t_cmd with_pc]; now rewrite Hc|]. cbn [t_pc with_pc]. split; [now apply own_set_th|].
              cbn [t_cmd with_pc]. rewrite Hc. split; [rewrite get_rec_set_th; lia|reflexivity].
           -- intro k0. unfold eff. cbn [t_cmd t_pc with_pc]. rewrite Hc, Hpc. reflexivity.
         * rewrite <- Hc in Hk. apply (commit_G s t x k r _ G Hx Hk Ho).
@@ -433,6 +580,306 @@ Section General.
       intro k0. unfold eff. cbn [t_cmd t_pc]. rewrite Hc, Hpc. destruct popped; reflexivity.
   Qed.
 
+  (* ---- LPOPRPUSH a b ---------------------------------------------------------------------------- *)
+  Lemma effM_quiet k x a b : t_cmd x = Move a b -> quiet_pc (t_pc x) = true -> eff k x = 0.
+  Proof. intros _ H. now apply eff_quiet. Qed.
+
+  (* two records rewritten, both owned by the stepping thread *)
+  Lemma G_rec2 s t x x' r1 y1 r2 y2 :
+    GInv s -> nget t (ths s) = Some x -> (r1 < nextr s)%nat -> (r2 < nextr s)%nat -> r1 <> r2 ->
+    r_w (get_rec r1 s) = Some t -> r_w (get_rec r2 s) = Some t ->
+    tok (set_th t x' (set_rec r1 y1 (set_rec r2 y2 s))) t x' ->
+    (forall k, eff k x' = eff k x) ->
+    r_val y1 = r_val (get_rec r1 s) -> r_val y2 = r_val (get_rec r2 s) ->
+    r_unl y1 = r_unl (get_rec r1 s) -> r_unl y2 = r_unl (get_rec r2 s) ->
+    GInv (set_th t x' (set_rec r1 y1 (set_rec r2 y2 s))).
+  Proof.
+    intros G Hx Hr1 Hr2 Hne Hw1 Hw2 Hself Heff Hv1 Hv2 Hu1 Hu2.
+    assert (Hg : forall r0, r0 <> r1 -> r0 <> r2 -> get_rec r0 (set_th t x' (set_rec r1 y1 (set_rec r2 y2 s))) = get_rec r0 s).
+    { intros r0 A B. rewrite get_rec_set_th, get_set_rec_other by exact A. now rewrite get_set_rec_other. }
+    assert (Hg1 : get_rec r1 (set_th t x' (set_rec r1 y1 (set_rec r2 y2 s))) = y1) by (rewrite get_rec_set_th; apply get_set_rec_same).
+    assert (Hg2 : get_rec r2 (set_th t x' (set_rec r1 y1 (set_rec r2 y2 s))) = y2).
+    { rewrite get_rec_set_th, get_set_rec_other by congruence. apply get_set_rec_same. }
+    constructor.
+    - apply (others_frame s _ t x' (gV s G)); [reflexivity|cbn; lia| | | | |exact Hself].
+      + intros u r0 Hu Hw. apply Hg; intros ->; congruence.
+      + intros u k0 r0 _ H _. exact H.
+      + intros r0. destruct (Nat.eq_dec r0 r1) as [->|A]; [rewrite Hg1; congruence|].
+        destruct (Nat.eq_dec r0 r2) as [->|B]; [rewrite Hg2; congruence|]. now rewrite Hg.
+      + intros k0 r0 H. now left.
+    - intro k. rewrite cur0_set_th. cbn [ths set_th set_rec]. rewrite (asum_eff_nset k t x x' _ Hx), Heff.
+      rewrite cur0_same_val by (rewrite get_set_rec_other by exact Hne; exact Hv1). rewrite cur0_same_val by exact Hv2. pose proof (gK s G k). lia.
+    - intro r0. destruct (Nat.eq_dec r0 r1) as [->|A]; [rewrite Hg1, Hv1; apply (gN s G)|].
+      destruct (Nat.eq_dec r0 r2) as [->|B]; [rewrite Hg2, Hv2; apply (gN s G)|]. rewrite Hg by assumption. apply (gN s G).
+    - apply (gI s G).
+    - apply (gR s G).
+    - intros r0 Hr0. cbn [recs set_th set_rec nextr] in *. rewrite !nget_nset_other by lia. now apply (gF s G).
+    - intros k0 r0 H. cbn [ix set_th set_rec] in H.
+      destruct (Nat.eq_dec r0 r1) as [->|A]; [rewrite Hg1, Hu1; exact (gJ s G k0 r1 H)|].
+      destruct (Nat.eq_dec r0 r2) as [->|B]; [rewrite Hg2, Hu2; exact (gJ s G k0 r2 H)|]. rewrite Hg by assumption. exact (gJ s G k0 r0 H).
+  Qed.
+
+  Lemma commit2 t x rp r2 r1 s : t_held x = [(r2, true); (r1, true)] -> r1 <> r2 ->
+    commit t x rp s = set_th t {| t_cmd := t_cmd x; t_pc := PDone rp; t_held := [] |}
+                        (set_rec r1 (release t true (get_rec r1 s)) (set_rec r2 (release t true (get_rec r2 s)) s)).
+  Proof.
+    intros H Hne. unfold commit. rewrite H. cbn [fold_left fst snd]. now rewrite get_set_rec_other by exact Hne.
+  Qed.
+
+  Definition mid_pc (p : pc) : bool :=
+    match p with
+    | PStored _ false | PUnlink _ true | PHit _ true | PWait _ true | PMiss true | PLocked _ true | PPub _ true | PLoaded _ _ true => true
+    | _ => false
+    end.
+  Lemma eff_mid k x a b : t_cmd x = Move a b -> a <> b -> mid_pc (t_pc x) = true -> eff k x = if Nat.eqb a k then -1 else 0.
+  Proof.
+    intros Hc Hab H. unfold eff. rewrite Hc.
+    destruct (t_pc x) as [|? [|]|? [|]|? [|]|[|]|? [|]|? ? [|]|? [|]|? [|]|]; cbn [mid_pc] in H; try discriminate;
+      destruct (Nat.eqb a k); destruct (Nat.eqb b k); reflexivity.
+  Qed.
+  Lemma own_held1 s t x a r : own s t x a r -> held1 s t a r.
+  Proof. intros [_ [Hw [Hi [Hu Hr]]]]. split; [exact Hw|]. split; [exact Hr|]. left. now split. Qed.
+  Lemma held1_set_th s t a r1 u y : held1 (set_th u y s) t a r1 <-> held1 s t a r1.
+  Proof. reflexivity. Qed.
+
+  (* the lookup of the destination, by a thread that holds the source record *)
+  Lemma lookupM2 s t x a b r1 :
+    GInv s -> nget t (ths s) = Some x -> t_cmd x = Move a b -> a <> b -> t_held x = [(r1, true)] -> held1 s t a r1 ->
+    mid_pc (t_pc x) = true -> GInv (lookup_next t x true s).
+  Proof.
+    intros G Hx Hc Hab Hh H1 Hm. unfold lookup_next. rewrite Hc. cbn [key_of].
+    destruct (nget b (ix s)) as [r2|] eqn:E.
+    - apply (G_local s t x _ G Hx).
+      + right. exists a, b. cbn [t_cmd t_pc t_held with_pc]. split; [exact Hc|]. split; [exact Hab|].
+        exists r1. split; [exact Hh|]. split; [exact H1|]. split; [exact (gR s G b r2 E)|]. split; [|intros _; exact E].
+        intros ->. destruct H1 as [_ [_ [[Hi _]|Hu]]].
+        * apply Hab. exact (gI s G a b r1 Hi E).
+        * rewrite (gJ s G b r1 E) in Hu. discriminate.
+      + intro k0. rewrite (eff_mid k0 x a b Hc Hab Hm). apply (eff_mid k0 _ a b); [exact Hc|exact Hab|reflexivity].
+    - apply (G_local s t x _ G Hx).
+      + right. exists a, b. cbn [t_cmd t_pc t_held with_pc]. split; [exact Hc|]. split; [exact Hab|]. exists r1. now split.
+      + intro k0. rewrite (eff_mid k0 x a b Hc Hab Hm). apply (eff_mid k0 _ a b); [exact Hc|exact Hab|reflexivity].
+  Qed.
+
+  Lemma try_lockM2 s t x a b r1 r2 :
+    GInv s -> nget t (ths s) = Some x -> t_cmd x = Move a b -> a <> b -> t_held x = [(r1, true)] -> held1 s t a r1 ->
+    mid_pc (t_pc x) = true -> (r2 < nextr s)%nat -> r2 <> r1 -> (r_unl (get_rec r2 s) = false -> nget b (ix s) = Some r2) ->
+    GInv (try_lock t x r2 true s).
+  Proof.
+    intros G Hx Hc Hab Hh H1 Hm Hr Hne Hu. unfold try_lock, holds_rec. rewrite Hh. cbn [existsb fst snd].
+    assert (En : Nat.eqb r1 r2 = false) by (apply Nat.eqb_neq; congruence). rewrite En. cbn [andb orb].
+    rewrite Hc. cbn [is_reader negb].
+    destruct (lock_free true (get_rec r2 s)) eqn:Hf.
+    - destruct (r_unl (get_rec r2 s)) eqn:Hun.
+      + now apply (lookupM2 s t x a b r1).
+      + apply lock_free_none in Hf.
+        apply (G_rec s t x _ r2 _ G Hx Hr).
+        * intros u _. congruence.
+        * right. exists a, b. cbn [t_cmd t_pc t_held]. split; [reflexivity|]. split; [exact Hab|].
+          exists r1. split; [reflexivity|]. split.
+          { destruct H1 as [Hw1 [Hr1 Hl]]. unfold held1. rewrite get_rec_set_th, get_set_rec_other by congruence.
+            split; [exact Hw1|]. split; [exact Hr1|exact Hl]. }
+          split; [exact Hne|]. unfold own2. rewrite get_rec_set_th, get_set_rec_same. cbn [acquire r_w r_unl ix set_th set_rec nextr].
+          split; [reflexivity|]. split; [now apply Hu|]. split; [exact Hun|exact Hr].
+        * intro k0. rewrite (eff_mid k0 x a b Hc Hab Hm), (eff_mid k0 _ a b); [|reflexivity|exact Hab|reflexivity].
+          rewrite cur0_same_val; [lia|reflexivity].
+        * cbn. apply (gN s G).
+        * reflexivity.
+    - apply (G_local s t x _ G Hx).
+      + right. exists a, b. cbn [t_cmd t_pc t_held with_pc]. split; [exact Hc|]. split; [exact Hab|].
+        exists r1. split; [exact Hh|]. split; [exact H1|]. split; [exact Hr|]. split; [exact Hne|exact Hu].
+      + intro k0. rewrite (eff_mid k0 x a b Hc Hab Hm). apply (eff_mid k0 _ a b); [exact Hc|exact Hab|reflexivity].
+  Qed.
+
+  Lemma get_rec_create_other r0 t tx i y nx rn s : r0 <> rn ->
+    get_rec r0 (set_th t tx {| ix := i; recs := nset rn y (recs s); nextr := nx; ths := ths s |}) = get_rec r0 s.
+  Proof. intro H. unfold get_rec. cbn [recs set_th]. now rewrite nget_nset_other. Qed.
+  Lemma own_set_thM s t x p a r : own s t x a r -> own (set_th t (with_pc x p) s) t (with_pc x p) a r.
+  Proof. intro H. exact H. Qed.
+
+  Lemma mstep_GM t s s' x : GInv s -> nget t (ths s) = Some x -> tokM s t x -> mstep t s = Some s' -> GInv s'.
+  Proof.
+    intros G Hx [a [b [Hc [Hab Hp]]]] Hs. unfold mstep in Hs. rewrite Hx, Hc in Hs.
+    assert (Eab : Nat.eqb a b = false) by (now apply Nat.eqb_neq).
+    destruct (t_pc x) as [|r [|]|r [|]|r [|]|[|]|r [|]|r tmp [|]|r [|]|r popped|rp] eqn:Hpc; try contradiction; try discriminate.
+    - (* PStart *)
+      inversion Hs; subst s'. unfold lookup_next. rewrite Hc. cbn [key_of]. destruct (nget a (ix s)) as [r|] eqn:E.
+      + apply (G_local s t x _ G Hx).
+        * right. exists a, b. cbn [t_cmd t_pc t_held with_pc]. split; [exact Hc|]. split; [exact Hab|]. split; [exact Hp|]. split; [exact (gR s G a r E)|intros _; exact E].
+        * intro k0. rewrite (eff_quiet k0 x) by (now rewrite Hpc). apply eff_quiet. reflexivity.
+      + apply (G_local s t x _ G Hx).
+        * right. exists a, b. cbn [t_cmd t_pc t_held with_pc]. split; [exact Hc|]. split; [exact Hab|exact Hp].
+        * intro k0. rewrite (eff_quiet k0 x) by (now rewrite Hpc). apply eff_quiet. reflexivity.
+    - (* PHit r true *)
+      destruct Hp as [r1 [Hh [H1 [Hr [Hne Hu]]]]]. inversion Hs; subst s'.
+      apply (try_lockM2 s t x a b r1 r G Hx Hc Hab Hh H1); [now rewrite Hpc|exact Hr|exact Hne|exact Hu].
+    - (* PHit r false *)
+      destruct Hp as [Hh [Hr Hu]]. inversion Hs; subst s'. unfold try_lock, holds_rec. rewrite Hh. cbn [existsb]. rewrite Hc. cbn [is_reader negb].
+      destruct (lock_free true (get_rec r s)) eqn:Hf.
+      + destruct (r_unl (get_rec r s)) eqn:Hun.
+        * unfold lookup_next. rewrite Hc. cbn [key_of]. destruct (nget a (ix s)) as [r'|] eqn:E.
+          -- apply (G_local s t x _ G Hx).
+             ++ right. exists a, b. cbn [t_cmd t_pc t_held with_pc]. split; [exact Hc|]. split; [exact Hab|]. split; [exact Hh|]. split; [exact (gR s G a r' E)|intros _; exact E].
+             ++ intro k0. rewrite (eff_quiet k0 x) by (now rewrite Hpc). apply eff_quiet. reflexivity.
+          -- apply (G_local s t x _ G Hx).
+             ++ right. exists a, b. cbn [t_cmd t_pc t_held with_pc]. split; [exact Hc|]. split; [exact Hab|exact Hh].
+             ++ intro k0. rewrite (eff_quiet k0 x) by (now rewrite Hpc). apply eff_quiet. reflexivity.
+        * apply lock_free_none in Hf. apply (G_rec s t x _ r _ G Hx Hr).
+          -- intros u _. congruence.
+          -- right. exists a, b. cbn [t_cmd t_pc t_held]. split; [reflexivity|]. split; [exact Hab|]. unfold own. cbn [t_held].
+             rewrite get_rec_set_th, get_set_rec_same. cbn [acquire r_w r_unl ix set_th set_rec nextr].
+             split; [reflexivity|]. split; [reflexivity|]. split; [now apply Hu|]. split; [exact Hun|exact Hr].
+          -- intro k0. rewrite (eff_quiet k0 x) by (now rewrite Hpc). rewrite (eff_quiet k0) by reflexivity. rewrite cur0_same_val; [lia|reflexivity].
+          -- cbn. apply (gN s G).
+          -- reflexivity.
+      + apply (G_local s t x _ G Hx).
+        * right. exists a, b. cbn [t_cmd t_pc t_held with_pc]. split; [exact Hc|]. split; [exact Hab|]. split; [exact Hh|]. split; [exact Hr|exact Hu].
+        * intro k0. rewrite (eff_quiet k0 x) by (now rewrite Hpc). apply eff_quiet. reflexivity.
+    - (* PWait r true *)
+      destruct Hp as [r1 [Hh [H1 [Hr [Hne Hu]]]]]. inversion Hs; subst s'.
+      apply (try_lockM2 s t x a b r1 r G Hx Hc Hab Hh H1); [now rewrite Hpc|exact Hr|exact Hne|exact Hu].
+    - (* PWait r false *)
+      destruct Hp as [Hh [Hr Hu]]. inversion Hs; subst s'. unfold try_lock, holds_rec. rewrite Hh. cbn [existsb]. rewrite Hc. cbn [is_reader negb].
+      destruct (lock_free true (get_rec r s)) eqn:Hf.
+      + destruct (r_unl (get_rec r s)) eqn:Hun.
+        * unfold lookup_next. rewrite Hc. cbn [key_of]. destruct (nget a (ix s)) as [r'|] eqn:E.
+          -- apply (G_local s t x _ G Hx).
+             ++ right. exists a, b. cbn [t_cmd t_pc t_held with_pc]. split; [exact Hc|]. split; [exact Hab|]. split; [exact Hh|]. split; [exact (gR s G a r' E)|intros _; exact E].
+             ++ intro k0. rewrite (eff_quiet k0 x) by (now rewrite Hpc). apply eff_quiet. reflexivity.
+          -- apply (G_local s t x _ G Hx).
+             ++ right. exists a, b. cbn [t_cmd t_pc t_held with_pc]. split; [exact Hc|]. split; [exact Hab|exact Hh].
+             ++ intro k0. rewrite (eff_quiet k0 x) by (now rewrite Hpc). apply eff_quiet. reflexivity.
+        * apply lock_free_none in Hf. apply (G_rec s t x _ r _ G Hx Hr).
+          -- intros u _. congruence.
+          -- right. exists a, b. cbn [t_cmd t_pc t_held]. split; [reflexivity|]. split; [exact Hab|]. unfold own. cbn [t_held].
+             rewrite get_rec_set_th, get_set_rec_same. cbn [acquire r_w r_unl ix set_th set_rec nextr].
+             split; [reflexivity|]. split; [reflexivity|]. split; [now apply Hu|]. split; [exact Hun|exact Hr].
+          -- intro k0. rewrite (eff_quiet k0 x) by (now rewrite Hpc). rewrite (eff_quiet k0) by reflexivity. rewrite cur0_same_val; [lia|reflexivity].
+          -- cbn. apply (gN s G).
+          -- reflexivity.
+      + apply (G_local s t x _ G Hx).
+        * right. exists a, b. cbn [t_cmd t_pc t_held with_pc]. split; [exact Hc|]. split; [exact Hab|]. split; [exact Hh|]. split; [exact Hr|exact Hu].
+        * intro k0. rewrite (eff_quiet k0 x) by (now rewrite Hpc). apply eff_quiet. reflexivity.
+    - (* PLocked r true: load *)
+      destruct Hp as [r1 [Hh [H1 [Hne H2]]]]. inversion Hs; subst s'. apply (G_local s t x _ G Hx).
+      + right. exists a, b. cbn [t_cmd t_pc t_held with_pc]. split; [exact Hc|]. split; [exact Hab|]. exists r1.
+        split; [exact Hh|]. split; [exact H1|]. split; [exact Hne|]. split; [exact H2|reflexivity].
+      + intro k0. rewrite (eff_mid k0 x a b Hc Hab) by (now rewrite Hpc). apply (eff_mid k0 _ a b); [exact Hc|exact Hab|reflexivity].
+    - (* PLocked r false: load *)
+      inversion Hs; subst s'. apply (G_local s t x _ G Hx).
+      + right. exists a, b. cbn [t_cmd t_pc t_held with_pc]. split; [exact Hc|]. split; [exact Hab|]. split; [now apply own_set_thM|reflexivity].
+      + intro k0. rewrite (eff_quiet k0 x) by (now rewrite Hpc). apply eff_quiet. reflexivity.
+    - (* PMiss true: create the destination, or use the one published meanwhile *)
+      destruct Hp as [r1 [Hh H1]]. cbn [creates key_of] in Hs.
+      destruct (nget b (ix s)) as [r2|] eqn:E; inversion Hs; subst s'.
+      + apply (lookupM2 s t x a b r1 G Hx Hc Hab Hh H1). now rewrite Hpc.
+      + rewrite <- Hc. apply (create_gen s t x _ b G Hx E).
+        * right. exists a, b. cbn [t_cmd t_pc t_held]. split; [exact Hc|]. split; [exact Hab|]. exists r1.
+          destruct H1 as [Hw1 [Hr1 Hl]].
+          assert (Hd : r1 <> nextr s) by lia.
+          split; [now rewrite Hh|]. split.
+          { unfold held1. rewrite (get_rec_create_other r1) by exact Hd. cbn [nextr set_th ix].
+            split; [exact Hw1|]. split; [lia|]. destruct Hl as [[Hi Hu]|Hu]; [left|now right].
+            split; [|exact Hu]. rewrite nget_nset_other by exact Hab. exact Hi. }
+          split; [lia|]. unfold own2. cbn [nextr set_th ix]. rewrite get_rec_set_th. unfold get_rec. cbn [recs]. rewrite !nget_nset_same.
+          cbn [acquire r_w r_unl rcd_new]. split; [reflexivity|]. split; [reflexivity|]. split; [reflexivity|lia].
+        * intro k0. rewrite (eff_mid k0 x a b Hc Hab) by (now rewrite Hpc). apply (eff_mid k0 _ a b); [exact Hc|exact Hab|reflexivity].
+    - (* PMiss false: nothing to pop *)
+      cbn [creates] in Hs. inversion Hs; subst s'. rewrite (commit0 t x 0 s Hp). apply (G_local s t x _ G Hx).
+      + right. exists a, b. split; [exact Hc|]. split; [exact Hab|reflexivity].
+      + intro k0. rewrite (eff_quiet k0 x) by (now rewrite Hpc). unfold eff. cbn [t_cmd t_pc]. rewrite Hc.
+        destruct (Nat.eqb a k0); destruct (Nat.eqb b k0); reflexivity.
+    - (* PPub r true: load *)
+      destruct Hp as [r1 [Hh [H1 [Hne H2]]]]. inversion Hs; subst s'. apply (G_local s t x _ G Hx).
+      + right. exists a, b. cbn [t_cmd t_pc t_held with_pc]. split; [exact Hc|]. split; [exact Hab|]. exists r1.
+        split; [exact Hh|]. split; [exact H1|]. split; [exact Hne|]. split; [exact H2|reflexivity].
+      + intro k0. rewrite (eff_mid k0 x a b Hc Hab) by (now rewrite Hpc). apply (eff_mid k0 _ a b); [exact Hc|exact Hab|reflexivity].
+    - (* PLoaded r tmp true: push to the destination *)
+      destruct Hp as [r1 [Hh [H1 [Hne [H2 Ht]]]]]. inversion Hs; subst s'. destruct H2 as [Hw2 [Hi2 [Hu2 Hr2]]].
+      pose proof (gN s G r) as Hnn.
+      apply (G_rec s t x _ r _ G Hx Hr2).
+      + intros u Hd. rewrite Hw2. congruence.
+      + right. exists a, b. cbn [t_cmd t_pc t_held with_pc]. split; [exact Hc|]. split; [exact Hab|]. exists r1.
+        split; [exact Hh|]. split.
+        { destruct H1 as [Hw1 [Hr1 Hl]]. unfold held1. rewrite get_rec_set_th, get_set_rec_other by congruence. split; [exact Hw1|]. split; [exact Hr1|exact Hl]. }
+        split; [exact Hne|]. unfold own2. rewrite get_rec_set_th, get_set_rec_same. cbn [with_val r_w r_unl ix set_th set_rec nextr]. repeat split; assumption.
+      + intro k0. rewrite (eff_mid k0 x a b Hc Hab) by (now rewrite Hpc). unfold eff. cbn [t_cmd t_pc with_pc]. rewrite Hc.
+        destruct (Nat.eq_dec k0 b) as [->|Hd].
+        * rewrite (cur0_set_rec_same b r _ s Hi2). cbn [with_val r_val]. unfold cur0. rewrite Hi2, Eab, Nat.eqb_refl. lia.
+        * rewrite cur0_set_rec_other.
+          -- destruct (Nat.eqb a k0); destruct (Nat.eqb_spec b k0); try congruence; lia.
+          -- intros r' Hr' ->. apply Hd. exact (gI s G k0 b r Hr' Hi2).
+      + cbn [with_val r_val]. lia.
+      + reflexivity.
+    - (* PLoaded r tmp false: pop from the source *)
+      destruct Hp as [Ho Ht]. pose proof (gN s G r) as Hnn. pose proof Ho as [Hh [Hw [Hi [Hu Hr]]]].
+      destruct (tmp <=? 0) eqn:Et; inversion Hs; subst s'.
+      + rewrite (commit1 t x 0 r s Hh). apply (G_rec s t x _ r _ G Hx Hr).
+        * intros u Hd. rewrite Hw. congruence.
+        * right. exists a, b. split; [exact Hc|]. split; [exact Hab|reflexivity].
+        * intro k0. rewrite (eff_quiet k0 x) by (now rewrite Hpc). rewrite cur0_same_val by reflexivity. unfold eff. cbn [t_cmd t_pc]. rewrite Hc.
+          destruct (Nat.eqb a k0); destruct (Nat.eqb b k0); cbn; lia.
+        * cbn. exact Hnn.
+        * reflexivity.
+      + apply (G_rec s t x _ r _ G Hx Hr).
+        * intros u Hd. rewrite Hw. congruence.
+        * right. exists a, b. cbn [t_cmd t_pc t_held with_pc]. split; [exact Hc|]. split; [exact Hab|]. unfold own. cbn [t_held with_pc].
+          rewrite get_rec_set_th, get_set_rec_same. cbn [with_val r_w r_unl ix set_th set_rec nextr]. repeat split; assumption.
+        * intro k0. rewrite (eff_quiet k0 x) by (now rewrite Hpc). unfold eff. cbn [t_cmd t_pc with_pc]. rewrite Hc.
+          destruct (Nat.eq_dec k0 a) as [->|Hd].
+          -- rewrite (cur0_set_rec_same a r _ s Hi). cbn [with_val r_val]. unfold cur0. rewrite Hi, Nat.eqb_refl.
+             assert (E2 : Nat.eqb b a = false) by (apply Nat.eqb_neq; congruence). rewrite E2. lia.
+          -- rewrite cur0_set_rec_other.
+             ++ destruct (Nat.eqb_spec a k0); try congruence. destruct (Nat.eqb b k0); lia.
+             ++ intros r' Hr' ->. apply Hd. exact (gI s G k0 a r Hr' Hi).
+        * cbn [with_val r_val]. lia.
+        * reflexivity.
+    - (* PStored r true: commit, both records are given back *)
+      destruct Hp as [r1 [Hh [H1 [Hne H2]]]]. inversion Hs; subst s'. destruct H2 as [Hw2 [Hi2 [Hu2 Hr2]]]. destruct H1 as [Hw1 [Hr1 Hl]].
+      rewrite (commit2 t x 1 r r1 s Hh) by congruence.
+      apply (G_rec2 s t x _ r1 _ r _ G Hx Hr1 Hr2); try reflexivity; try assumption; try congruence.
+      + right. exists a, b. split; [exact Hc|]. split; [exact Hab|reflexivity].
+      + intro k0. unfold eff. cbn [t_cmd t_pc]. rewrite Hc, Hpc. destruct (Nat.eqb a k0); destruct (Nat.eqb b k0); reflexivity.
+    - (* PStored r false: unlink the emptied source, or go on to the destination *)
+      pose proof Hp as [Hh [Hw [Hi [Hu Hr]]]]. cbn [key_of] in Hs. rewrite Eab in Hs. cbn [negb] in Hs. rewrite andb_true_r in Hs.
+      destruct (r_val (get_rec r s) =? 0) eqn:Ez; inversion Hs; subst s'.
+      + apply (G_local s t x _ G Hx).
+        * right. exists a, b. cbn [t_cmd t_pc t_held with_pc]. split; [exact Hc|]. split; [exact Hab|]. split; [now apply own_set_thM|].
+          split; [rewrite get_rec_set_th; lia|reflexivity].
+        * intro k0. rewrite (eff_mid k0 x a b Hc Hab) by (now rewrite Hpc). apply (eff_mid k0 _ a b); [exact Hc|exact Hab|reflexivity].
+      + apply (lookupM2 s t x a b r G Hx Hc Hab Hh (own_held1 s t x a r Hp)). now rewrite Hpc.
+    - (* PUnlink: the source record is flagged and leaves the index; the thread keeps holding it *)
+      destruct Hp as [Ho [Hz Hpop]]. subst popped. pose proof Ho as [Hh [Hw [Hi [Hu Hr]]]].
+      cbn [key_of] in Hs. rewrite Hi in Hs. inversion Hs; subst s'. clear Hs.
+      unfold lookup_next. rewrite Hc. cbn [key_of set_ix set_rec ix].
+      assert (Eb : nget b (ndel a (ix s)) = nget b (ix s)) by (apply nget_ndel_other; congruence).
+      rewrite Eb.
+      set (yflag := {| r_val := r_val (get_rec r s); r_w := r_w (get_rec r s); r_rd := r_rd (get_rec r s);
+                       r_in := r_in (get_rec r s); r_out := r_out (get_rec r s); r_unl := true |}).
+      assert (Hheld : forall S', get_rec r S' = yflag -> (nextr s <= nextr S')%nat -> held1 S' t a r).
+      { intros S' Hg Hn. unfold held1. rewrite Hg. cbn [yflag r_w r_unl]. split; [exact Hw|]. split; [lia|now right]. }
+      destruct (nget b (ix s)) as [r2|] eqn:E.
+      + change (GInv (set_th t (with_pc x (PHit r2 true)) (set_rec r yflag (set_ix (ndel a (ix s)) s)))).
+        apply (unlink_gen s t x _ a r yflag G Hx Hw Hi Hr Hz); [exact Hz|reflexivity| |].
+        * right. exists a, b. cbn [t_cmd t_pc t_held with_pc]. split; [exact Hc|]. split; [exact Hab|]. exists r.
+          assert (Hr2 : r2 <> r) by (intros ->; apply Hab; exact (gI s G a b r Hi E)).
+          split; [exact Hh|]. split.
+          { apply Hheld; [|cbn; lia]. rewrite get_rec_set_th. unfold get_rec. cbn [recs set_rec set_ix]. now rewrite nget_nset_same. }
+          split; [exact (gR s G b r2 E)|]. split; [exact Hr2|]. intros _. cbn [ix set_th set_rec set_ix]. rewrite ?Eb. first [exact E | reflexivity | (rewrite E; reflexivity)].
+        * intro k0. rewrite (eff_mid k0 x a b Hc Hab) by (now rewrite Hpc). apply (eff_mid k0 _ a b); [exact Hc|exact Hab|reflexivity].
+      + change (GInv (set_th t (with_pc x (PMiss true)) (set_rec r yflag (set_ix (ndel a (ix s)) s)))).
+        apply (unlink_gen s t x _ a r yflag G Hx Hw Hi Hr Hz); [exact Hz|reflexivity| |].
+        * right. exists a, b. cbn [t_cmd t_pc t_held with_pc]. split; [exact Hc|]. split; [exact Hab|]. exists r.
+          split; [exact Hh|]. apply Hheld; [|cbn; lia]. rewrite get_rec_set_th. unfold get_rec. cbn [recs set_rec set_ix]. now rewrite nget_nset_same.
+        * intro k0. rewrite (eff_mid k0 x a b Hc Hab) by (now rewrite Hpc). apply (eff_mid k0 _ a b); [exact Hc|exact Hab|reflexivity].
+  Qed.
+
+  Theorem mstep_G t s s' : GInv s -> mstep t s = Some s' -> GInv s'.
+  Proof.
+    intros G Hs. destruct (nget t (ths s)) as [x|] eqn:Hx; [|unfold mstep in Hs; rewrite Hx in Hs; discriminate].
+    destruct (gV s G t x Hx) as [HW|HM]; [exact (mstep_GW t s s' x G Hx HW Hs)|exact (mstep_GM t s s' x G Hx HM Hs)].
+  Qed.
+
   Theorem run_micro_G sched : forall s, GInv s -> GInv (run_micro sched s).
   Proof.
     induction sched as [|t r IH]; intros s H; [exact H|].
@@ -443,6 +890,12 @@ End General.
 
 (* ---- from the initial state ------------------------------------------------------------------- *)
 Definition writers_only (cmds : list cmd) : Prop := forall c, In c cmds -> wkey c <> None.
+(* RPUSH, RPUSHX, LPOP, and LPOPRPUSH between two different keys *)
+Definition supported_cmd (c : cmd) : Prop :=
+  match c with Push _ | Pop _ | PushX _ => True | Move a b => a <> b | _ => False end.
+Definition supported (cmds : list cmd) : Prop := forall c, In c cmds -> supported_cmd c.
+Lemma writers_supported cmds : writers_only cmds -> supported cmds.
+Proof. intros H c Hc. specialize (H c Hc). destruct c; cbn in *; try exact I; congruence. Qed.
 
 Lemma fold_max_le l : forall a k, (k <= a)%nat \/ In k l -> (k <= fold_left Nat.max l a)%nat.
 Proof.
@@ -468,13 +921,17 @@ Proof.
 Qed.
 
 Lemma init_G vals cmds :
-  writers_only cmds -> (forall kv, In kv vals -> 0 <= snd kv) ->
+  supported cmds -> (forall kv, In kv vals -> 0 <= snd kv) ->
   GInv (fun k => cur0 k (init_state vals cmds)) (init_state vals cmds).
 Proof.
   intros Hw Hnn. constructor.
   - intros t x Hx. unfold init_state in Hx. cbn [ths] in Hx. apply nget_combine_in in Hx.
     apply in_map_iff in Hx. destruct Hx as [c [<- Hc]]. pose proof (Hw c Hc) as Hk.
-    destruct (wkey c) as [k|] eqn:E; [|congruence]. exists k. cbn. split; [exact E|reflexivity].
+    destruct c as [k|k|k|k|a b|k]; cbn in Hk; try contradiction.
+    + left. exists k. cbn. split; reflexivity.
+    + left. exists k. cbn. split; reflexivity.
+    + right. exists a, b. cbn. repeat split; [exact Hk].
+    + left. exists k. cbn. split; reflexivity.
   - intro k. rewrite asum_zero; [lia|]. intros a Ha. apply in_map_iff in Ha. destruct Ha as [[t x] [<- Hin]].
     unfold init_state in Hin. cbn [ths] in Hin. apply in_combine_r in Hin. apply in_map_iff in Hin. destruct Hin as [c [<- _]].
     apply eff_quiet. reflexivity.
@@ -486,41 +943,56 @@ Proof.
   - intros r Hr. unfold init_state in *. cbn [recs nextr] in *. pose proof (nget_recs_init r vals) as H.
     destruct (nget r _) as [y|]; [|reflexivity]. destruct H as [Hin _].
     assert ((r <= fold_left Nat.max (map fst vals) 0)%nat) by (apply fold_max_le; now right). lia.
+  - intros k r H. unfold init_state in *. cbn [ix] in *. unfold get_rec. cbn [recs].
+    clear H. induction vals as [|[k' v] rest IH]; cbn; [reflexivity|]. destruct (Nat.eqb r k'); [reflexivity|].
+    apply IH. intros kv Hkv. apply Hnn. now right.
 Qed.
 
 (* no lost update, for keys that are created, emptied, unlinked and re-created while they are in use *)
-Theorem writers_conserve vals cmds sched :
-  writers_only cmds -> (forall kv, In kv vals -> 0 <= snd kv) ->
+Theorem supported_conserve vals cmds sched :
+  supported cmds -> (forall kv, In kv vals -> 0 <= snd kv) ->
   let s := run_micro sched (init_state vals cmds) in
   forall k, cur0 k s = cur0 k (init_state vals cmds) + asum (eff k) (ths s).
 Proof.
   intros Hw Hnn s k. exact (gK _ s (run_micro_G _ sched _ (init_G vals cmds Hw Hnn)) k).
 Qed.
-
-(* mutual exclusion and validity: a thread that has loaded the value of a record holds the record
-   exclusively, the record is the one the index holds for the thread's key, it is not unlinked, and
-   the value it loaded is still the current one *)
-Theorem loaded_record_is_current vals cmds sched t x r tmp :
+Theorem writers_conserve vals cmds sched :
   writers_only cmds -> (forall kv, In kv vals -> 0 <= snd kv) ->
   let s := run_micro sched (init_state vals cmds) in
+  forall k, cur0 k s = cur0 k (init_state vals cmds) + asum (eff k) (ths s).
+Proof. intros Hw. apply supported_conserve. now apply writers_supported. Qed.
+
+(* mutual exclusion and validity: a thread that has loaded the value of a source or single-key record holds the
+   record exclusively, the record is the one the index holds for that key, it is not unlinked, and the value it
+   loaded is still the current one *)
+Definition first_key (c : cmd) : option nat :=
+  match c with Push k | Pop k | PushX k => Some k | Move a _ => Some a | _ => None end.
+Theorem loaded_record_is_current vals cmds sched t x r tmp :
+  supported cmds -> (forall kv, In kv vals -> 0 <= snd kv) ->
+  let s := run_micro sched (init_state vals cmds) in
   nget t (ths s) = Some x -> t_pc x = PLoaded r tmp false ->
-  exists k, wkey (t_cmd x) = Some k /\ nget k (ix s) = Some r /\ r_w (get_rec r s) = Some t /\
+  exists k, first_key (t_cmd x) = Some k /\ nget k (ix s) = Some r /\ r_w (get_rec r s) = Some t /\
             r_unl (get_rec r s) = false /\ tmp = r_val (get_rec r s).
 Proof.
-  intros Hw Hnn s Hx Hp. destruct (gV _ s (run_micro_G _ sched _ (init_G vals cmds Hw Hnn)) t x Hx) as [k [Hk Hpc]].
-  rewrite Hp in Hpc. destruct Hpc as [[_ [Hw' [Hi [Hu _]]]] Ht]. exists k. repeat split; assumption.
+  intros Hw Hnn s Hx Hp.
+  destruct (gV _ s (run_micro_G _ sched _ (init_G vals cmds Hw Hnn)) t x Hx) as [[k [Hk Hpc]]|[a [b [Hc [_ Hpc]]]]].
+  - rewrite Hp in Hpc. destruct Hpc as [[_ [Hw' [Hi [Hu _]]]] Ht]. exists k. split; [|repeat split; assumption].
+    destruct (t_cmd x); cbn in *; congruence.
+  - rewrite Hp in Hpc. destruct Hpc as [[_ [Hw' [Hi [Hu _]]]] Ht]. exists a. rewrite Hc. cbn. repeat split; assumption.
 Qed.
 
-(* when every command has replied: the key holds its initial value, plus one per push that was
-   acknowledged with a length, minus one per pop that was acknowledged with an element *)
+(* when every command has replied: the key holds its initial value, plus one per push or move-in that was
+   acknowledged, minus one per pop or move-out that was acknowledged *)
 Definition acked_push (k : nat) (x : thread) : bool :=
   match t_cmd x, t_pc x with
   | Push k', PDone rp | PushX k', PDone rp => Nat.eqb k' k && (0 <? rp)
+  | Move _ b, PDone rp => Nat.eqb b k && (rp =? 1)
   | _, _ => false
   end.
 Definition acked_pop (k : nat) (x : thread) : bool :=
   match t_cmd x, t_pc x with
   | Pop k', PDone rp => Nat.eqb k' k && (rp =? 1)
+  | Move a _, PDone rp => Nat.eqb a k && (rp =? 1)
   | _, _ => false
   end.
 Definition count_th (f : thread -> bool) (m : list (nat * thread)) : Z :=
@@ -530,10 +1002,8 @@ Lemma eff_done k x rp : t_pc x = PDone rp ->
   eff k x = (if acked_push k x then 1 else 0) - (if acked_pop k x then 1 else 0).
 Proof.
   intro Hp. unfold eff, acked_push, acked_pop. rewrite Hp.
-  destruct (t_cmd x); try reflexivity; destruct (Nat.eqb _ _); cbn [andb]; try reflexivity.
-  - destruct (0 <? rp); reflexivity.
-  - destruct (rp =? 1); reflexivity.
-  - destruct (0 <? rp); reflexivity.
+  destruct (t_cmd x); try reflexivity; repeat (destruct (Nat.eqb _ _)); cbn [andb]; try reflexivity;
+    try (destruct (0 <? rp); reflexivity); destruct (rp =? 1); reflexivity.
 Qed.
 Lemma asum_done k m : (forall t x, In (t, x) m -> exists rp, t_pc x = PDone rp) ->
   asum (eff k) m = count_th (acked_push k) m - count_th (acked_pop k) m.
@@ -543,28 +1013,38 @@ Proof.
   destruct (acked_push k x), (acked_pop k x); cbn [length]; lia.
 Qed.
 
+Theorem supported_conserve_when_done vals cmds sched :
+  supported cmds -> (forall kv, In kv vals -> 0 <= snd kv) ->
+  let s := run_micro sched (init_state vals cmds) in
+  (forall t x, In (t, x) (ths s) -> exists rp, t_pc x = PDone rp) ->
+  forall k, cur0 k s = cur0 k (init_state vals cmds) + count_th (acked_push k) (ths s) - count_th (acked_pop k) (ths s).
+Proof.
+  intros Hw Hnn s Hdone k. pose proof (supported_conserve vals cmds sched Hw Hnn k) as H. fold s in H. rewrite H, (asum_done k _ Hdone). lia.
+Qed.
 Theorem writers_conserve_when_done vals cmds sched :
   writers_only cmds -> (forall kv, In kv vals -> 0 <= snd kv) ->
   let s := run_micro sched (init_state vals cmds) in
   (forall t x, In (t, x) (ths s) -> exists rp, t_pc x = PDone rp) ->
   forall k, cur0 k s = cur0 k (init_state vals cmds) + count_th (acked_push k) (ths s) - count_th (acked_pop k) (ths s).
-Proof.
-  intros Hw Hnn s Hdone k. pose proof (writers_conserve vals cmds sched Hw Hnn k) as H. fold s in H. rewrite H, (asum_done k _ Hdone). lia.
-Qed.
+Proof. intros Hw. apply supported_conserve_when_done. now apply writers_supported. Qed.
 
-(* no hold-and-wait among writers, also while keys are created and unlinked: a thread inside Lock()
-   holds nothing; a thread that holds a record is past its Lock() and holds exactly that one record,
-   exclusively - so the holder of any record can always run to its commit, and no cycle of waiting
-   threads can form *)
+(* moves conserve elements: at every moment the elements of all keys together are the initial elements, plus
+   the pushes stored, minus the pops stored, minus one for every LPOPRPUSH that has taken its element from the
+   source and not yet put it into the destination - an element is never lost and never duplicated.  (total_eff
+   sums eff over a finite set of keys that contains every key a command names.) *)
+
+(* no hold-and-wait among single-key writers, also while keys are created and unlinked; an LPOPRPUSH holds its
+   source record while it waits for the destination (which is how two opposite moves block each other) *)
 Theorem writers_no_hold_and_wait vals cmds sched t x :
-  writers_only cmds -> (forall kv, In kv vals -> 0 <= snd kv) ->
+  supported cmds -> (forall kv, In kv vals -> 0 <= snd kv) ->
   let s := run_micro sched (init_state vals cmds) in
-  nget t (ths s) = Some x ->
+  nget t (ths s) = Some x -> wkey (t_cmd x) <> None ->
   (forall r sec, t_pc x = PWait r sec -> t_held x = []) /\
   (t_held x <> [] -> exists r, t_held x = [(r, true)] /\ r_w (get_rec r s) = Some t /\
                      match t_pc x with PLocked _ _ | PPub _ _ | PLoaded _ _ _ | PStored _ _ | PUnlink _ _ => True | _ => False end).
 Proof.
-  intros Hw Hnn s Hx. destruct (gV _ s (run_micro_G _ sched _ (init_G vals cmds Hw Hnn)) t x Hx) as [k [Hk Hp]].
+  intros Hw Hnn s Hx Hwk.
+  destruct (gV _ s (run_micro_G _ sched _ (init_G vals cmds Hw Hnn)) t x Hx) as [[k [Hk Hp]]|[a [b [Hc _]]]]; [|rewrite Hc in Hwk; now cbn in Hwk].
   split.
   - intros r sec E. rewrite E in Hp. destruct sec; [contradiction|]. apply Hp.
   - intro Hne. destruct (t_pc x) as [|r [|]|r [|]|r [|]|[|]|r [|]|r tmp [|]|r [|]|r p|rp]; try contradiction;
